@@ -823,7 +823,61 @@ FIXED = [
     ('m2m-composite-self',
      "class Node(db.Entity):\n    a = Required(int)\n    b = Required(str)\n    links = Set('Node', reverse='links')\n    out = Set('Node', reverse='inc')\n    inc = Set('Node', reverse='out')\n    PrimaryKey(a, b)\nclass Leaf(Node):\n    parent = Required(Node, reverse='leaves')\n"
      .replace("    PrimaryKey(a, b)\n", "    leaves = Set('Leaf', reverse='parent')\n    PrimaryKey(a, b)\n")),
+] + [
+    # explicit `table=` of a many-to-many pair: on the primary side (smaller entity / attribute name), on the other side,
+    # on both, on neither; colliding with an entity table or with another link table; both declaration orders
+    ('m2m-table-later-side-collides-with-entity-table',
+     "class Alpha(db.Entity):\n    _table_ = 'Shared'\n    betas = Set('Beta')\nclass Beta(db.Entity):\n    alphas = Set(Alpha, table='Shared')\n"),
+    ('m2m-table-primary-side-collides-with-entity-table',
+     "class Alpha(db.Entity):\n    _table_ = 'Shared'\n    betas = Set('Beta', table='Shared')\nclass Beta(db.Entity):\n    alphas = Set(Alpha)\n"),
+    ('m2m-table-later-side-collides-with-third-entity-default-table',
+     "class Alpha(db.Entity):\n    betas = Set('Beta')\nclass Beta(db.Entity):\n    alphas = Set(Alpha, table='Aaa')\nclass Aaa(db.Entity):\n    x = Required(int)\n"),
+    ('m2m-table-later-side-collides-reversed-declaration-order',
+     "class Beta(db.Entity):\n    alphas = Set('Alpha', table='Shared')\nclass Alpha(db.Entity):\n    _table_ = 'Shared'\n    betas = Set(Beta)\n"),
+    ('two-m2m-same-explicit-table-second-on-later-side',
+     "class Alpha(db.Entity):\n    betas = Set('Beta', reverse='alphas', table='Link')\n    betas2 = Set('Beta', reverse='alphas2')\n"
+     "class Beta(db.Entity):\n    alphas = Set(Alpha, reverse='betas')\n    alphas2 = Set(Alpha, reverse='betas2', table='Link')\n"),
+    ('two-m2m-same-explicit-table-both-on-primary-side',
+     "class Alpha(db.Entity):\n    betas = Set('Beta', reverse='alphas', table='Link')\n    betas2 = Set('Beta', reverse='alphas2', table='Link')\n"
+     "class Beta(db.Entity):\n    alphas = Set(Alpha, reverse='betas')\n    alphas2 = Set(Alpha, reverse='betas2')\n"),
+    ('m2m-table-later-side-no-collision',
+     "class Alpha(db.Entity):\n    betas = Set('Beta')\nclass Beta(db.Entity):\n    alphas = Set(Alpha, table='Link')\n"),
+    ('m2m-table-both-sides-equal',
+     "class Alpha(db.Entity):\n    betas = Set('Beta', table='Link')\nclass Beta(db.Entity):\n    alphas = Set(Alpha, table='Link')\n"),
+    ('m2m-table-both-sides-different',
+     "class Alpha(db.Entity):\n    betas = Set('Beta', table='Link')\nclass Beta(db.Entity):\n    alphas = Set(Alpha, table='Link2')\n"),
+    ('two-m2m-default-tables',
+     "class Alpha(db.Entity):\n    betas = Set('Beta', reverse='alphas')\n    betas2 = Set('Beta', reverse='alphas2')\n"
+     "class Beta(db.Entity):\n    alphas = Set(Alpha, reverse='betas')\n    alphas2 = Set(Alpha, reverse='betas2')\n"),
+    ('m2m-default-table-collides-with-entity-table',
+     "class Alpha(db.Entity):\n    betas = Set('Beta')\nclass Beta(db.Entity):\n    alphas = Set(Alpha)\nclass Gamma(db.Entity):\n    _table_ = 'Alpha_Beta'\n    x = Required(int)\n"),
+    ('entity-default-table-collides-with-default-m2m-table',
+     "class Alpha_Beta(db.Entity):\n    x = Required(int)\nclass Alpha(db.Entity):\n    betas = Set('Beta')\nclass Beta(db.Entity):\n    alphas = Set(Alpha)\n"),
+    ('self-m2m-table-on-later-attribute-collides-with-own-table',
+     "class Node(db.Entity):\n    _table_ = 'Graph'\n    inc = Set('Node', reverse='out')\n    out = Set('Node', reverse='inc', table='Graph')\n"),
+    ('self-m2m-table-on-earlier-attribute-collides-with-own-table',
+     "class Node(db.Entity):\n    _table_ = 'Graph'\n    inc = Set('Node', reverse='out', table='Graph')\n    out = Set('Node', reverse='inc')\n"),
+    ('self-m2m-table-on-later-attribute-no-collision',
+     "class Node(db.Entity):\n    inc = Set('Node', reverse='out')\n    out = Set('Node', reverse='inc', table='Edges')\n"),
+    ('symmetric-m2m-table-collides-with-other-link-table',
+     "class Node(db.Entity):\n    peers = Set('Node', reverse='peers', table='Edges')\n    inc = Set('Node', reverse='out')\n    out = Set('Node', reverse='inc', table='Edges')\n"),
 ]
+
+def declared_tables_oracle(ctx, dialect, src, res):
+    """accepted mapping: the link table of a many-to-many pair IS the declared `table=` (given on either side); hence a
+    declaration whose explicit link-table name is already taken must have been rejected by generate_mapping"""
+    post = {(x['entity'], x['attr']): x for x in res['attrs']}
+    tables = [t['name'] for t in res['outcome']['ok']['tables']]
+    for e in res['decls']:
+        for a in e['attrs']:
+            if a['kind'] != 'set' or not isinstance(a['table'], str) or a['target'] is None or a['reverse'] is None: continue
+            got = [post[(e['name'], a['name'])]['table'], post.get((a['target'], a['reverse']), {}).get('table')]
+            ctx.count('declared-m2m-table-checked')
+            if got != [a['table'], a['table']] or tables.count(a['table']) != 1:
+                ctx.violation("many-to-many link table differs from the declared table=%r (the name is taken: the declaration should have been rejected "
+                              "with MappingError 'Table name ... is already in use')" % a['table'],
+                              {'source': src, 'dialect': dialect, 'attr': e['name'] + '.' + a['name']}, observed=got, expected=a['table'],
+                              key='m2m-explicit-table-renamed')
 
 def diagrams(ctx):
     rng = ctx.rng
@@ -877,6 +931,7 @@ def diagrams(ctx):
                             if s == 'norm' and len(nm) > MAXLEN[dialect]:
                                 ctx.divergence('model tags an over-long name as normalised', [dialect, src, nm])
         if 'ok' in out:
+            if res['linked']: declared_tables_oracle(ctx, dialect, src, res)
             if dialect == 'sqlite': sqlite_oracle(ctx, spec, src, res, model_ok)
             else: ddl_oracle(ctx, spec, src, dialect, res, res['decls'])
         else:
@@ -988,6 +1043,7 @@ def replay(ctx, data):
         res = run_real_mapping(src, dialect, sqlite_real=(dialect == 'sqlite'))
         ctx.case(['replay', dialect, src], kind='replay')
         if 'ok' in res.get('outcome', {}):
+            if res['linked']: declared_tables_oracle(ctx, dialect, src, res)
             if dialect == 'sqlite': sqlite_oracle(ctx, None, src, res, None)
             else: ddl_oracle(ctx, None, src, dialect, res, res['decls'])
     else:
